@@ -165,7 +165,7 @@ def main():
             "transitions": agg.decisions + n_obl,
             "fork_decisions": agg.decisions,
             "traces_validated_against_impl": agg.witness_ok,
-            "samples": agg.samples[:6],
+            "samples": [{k: v for k, v in x.items() if k != "_score"} for x in agg.samples[:6]],
             "exhaustive": (not agg.incomplete) and not agg.aborts.get("budget"),
             "evaluations": agg.runs,
             "distinct_nontrivial": agg.nontrivial,
